@@ -346,6 +346,20 @@ func TestVerifC07(t *testing.T) {
 				prices = internalfees.NewManager(parentFeeBytes(rfm, 1_700_000_000_000, pp, pc)).ComputeNext(1_700_000_001_000, rfm).UnitPrices()
 				fmField = verifx.DimsString(pp) + "/" + verifx.DimsString(pc)
 			}
+			// running-sum overflow (8%): every single price*units product fits in uint64 but the sum
+			// crosses 2^64 before the last dimension; the fee is not representable, the tx must
+			// be rejected everywhere (fees.Manager.Fee: overflow of the running total)
+			sumOverflow := !moved && maxU == defMax && rng.Chance(8)
+			if sumOverflow {
+				r2 = "-"
+				_, u0 := mkC07(fees.Dimensions{}, maxU, r2, "-", 0, tsoff, scope, acts)
+				second := 2 + rng.Intn(2)
+				for d := range prices {
+					prices[d] = uint64(rng.Intn(4))
+				}
+				prices[0] = ^uint64(0) / (u0[0] + 16) // margin: the size varies by a few bytes with MaxFee
+				prices[second] = ^uint64(0) / (u0[second] + 16)
+			}
 			_, u := mkC07(prices, maxU, r2, "-", 0, tsoff, scope, acts)
 			fee := verifx.BigFee(prices, u).Uint64() // fee under the block's rules
 			if moved {
@@ -383,6 +397,10 @@ func TestVerifC07(t *testing.T) {
 				bal = strconv.FormatUint(maxFee, 10) // exactly what the user agreed to pay
 			default:
 				bal = strconv.FormatUint(fee+uint64(rng.Intn(1_000_000)), 10)
+			}
+			if sumOverflow {
+				maxFee = ^uint64(0)
+				bal = strconv.FormatUint(^uint64(0)-uint64(rng.Intn(1000)), 10) // the wrapped amount would be payable
 			}
 			if moved && rng.Chance(60) && parentFee != fee {
 				// a balance between the fee at the parent's prices and the fee at the next block's
@@ -704,6 +722,9 @@ func TestVerifC07(t *testing.T) {
 			adm = "err:" + verifx.ClassErr(err)
 		} else if fee1.IsUint64() && fee1.Uint64() > maxFee {
 			viol("fee-exceeds-maxfee", "PreExecutor.PreExecute admitted a tx whose fee at the next block's prices is %s > Base.MaxFee=%d", fee1, maxFee)
+		}
+		if adm == "ok" && !fee1.IsUint64() {
+			viol("fee-not-price-times-units", "PreExecutor.PreExecute admitted a tx whose fee sum price*units = %s does not fit in uint64 (prices %v units %v)", fee1, prices, units1)
 		}
 		// admission must check the balance against the fee at the NEXT block's unit prices
 		if !dup && authOk {
